@@ -378,6 +378,12 @@ def report(mod, prop, tier, seed, units, results, extra, t0, origin, args):
                 return 3
             lock[lkey] = _group_names(sorted(n for n in obligations if _lockable(n)), [u.name for u in units])
             json.dump(lock, open(lock_path, "w"), indent=0, sort_keys=True)
+            # the headers of the loops the loop specifications are written against
+            hp = os.path.join(HERE, "loop_headers.lock.json")
+            heads = json.load(open(hp)) if os.path.exists(hp) else {}
+            for r in results:
+                heads.update(r.get("loop_headers_seen") or {})
+            json.dump(heads, open(hp, "w"), indent=1, sort_keys=True)
         elif lkey in lock:
             have = set(obligations)
             for uname, suffixes in lock[lkey].items():
@@ -400,9 +406,15 @@ def report(mod, prop, tier, seed, units, results, extra, t0, origin, args):
                                                for k, v in obligations[name].items()}})
     level = meta.get("level", "proof")
     import z3
+    # obligations of bounded stand-ins (units named *-bounded/*, extra checks of kind bounded-*) decide an instance of the
+    # property up to a stated bound: they are listed apart and are NOT part of what is claimed as proved
+    bounded_names = [n for n in obligations if "-bounded/" in n or "/bounded/" in n]
     coverage = {
         "obligations": n_ob,
         "discharged": n_dis,
+        "of_which_bounded_stand_ins_not_counted_as_proved": {
+            "obligations": len(bounded_names),
+            "discharged": sum(1 for n in bounded_names if obligations[n]["status"] == "discharged")},
         "checker_cmd": "./check %s --tier %s" % (prop, tier),
         "trusted_base": meta.get("trusted_base", []) + [
             "pyvc (this VC generator: symbolic AST interpreter, builtin models, contract application)",
